@@ -43,6 +43,9 @@ int drv_cli_read(char *buf, int buflen, struct query *q);
 
 /* ---- the wire between the two halves ----------------------------------------------------- */
 static unsigned char wire[64 * 1024 + 64];
+static int order_passes, in_order_pass;
+static unsigned long long evals_order;
+static unsigned char asc_cls[4][4][8][4097];
 static int wire_len = -1;                 /* -1: the server sent nothing */
 static unsigned long long n_sendto, n_recvfrom, n_foreign_fd;
 static int sends_this_case;
@@ -172,13 +175,18 @@ static void window(char *dst, size_t dstlen, const unsigned char *p, int len, in
 static void judge(int qi, int ci, int nk, int bk, int style, const unsigned char *p, int n,
 		  const unsigned char *r, int rl, int srv_len)
 {
-	struct grp *g = &G[qi][ci][nk][bk][style];
+	static struct grp scratch;
+	struct grp *g = in_order_pass ? &scratch : &G[qi][ci][nk][bk][style];
 	int cmp, d, cls;   /* cls: 0 exact, 1 prefix, 2 nothing, 3 bad */
 	char key[64], e[40], a[40];
 
-	evals++;
-	g->tested++;
-	if (n <= 102) g->floor_tested++;
+	if (in_order_pass) {
+		evals_order++;
+	} else {
+		evals++;
+		g->tested++;
+		if (n <= 102) g->floor_tested++;
+	}
 	if (rl <= 0) {
 		cls = 2;
 	} else {
@@ -208,6 +216,19 @@ static void judge(int qi, int ci, int nk, int bk, int style, const unsigned char
 		} else {
 			cls = rl == n ? 0 : 1;
 		}
+	}
+	if (!in_order_pass) {
+		asc_cls[nk][bk][style][n] = (unsigned char) (cls + 1);
+	} else {
+		if (asc_cls[nk][bk][style][n] == 1 && cls != 0 && cls != 3) {
+			snprintf(key, sizeof(key), "C09:%s:%c:order-dependent", QTN[qi], CODEC[ci]);
+			DRV_VIOL(key, "%s answer, codec %c: a %d-byte payload that is delivered exactly on its own came out as %s (rl=%d) after other answers had been decoded"
+				 "	qtype=%s codec=%c n=%d style=%s name=%s buf=%d seed=%u",
+				 QTN[qi], CODEC[ci], n, cls == 1 ? "a proper prefix" : "nothing", rl,
+				 QTN[qi], CODEC[ci], n, STYLE[style], NAMEKIND[nk], BUFSZ[bk], seed);
+		}
+		if (cls == 3) n_bad++;
+		return;
 	}
 	switch (cls) {
 	case 0:
@@ -290,6 +311,8 @@ static void report(int qi, int ci)
 	DRV_X("server_sent_nothing", n_srv_silent);
 	DRV_X("client_returned_negative", n_cli_negative);
 	DRV_X("calls_on_foreign_fd", n_foreign_fd);
+	DRV_X("order_passes_descending_and_interleaved", order_passes);
+	DRV_X("order_pass_cases", evals_order);
 	for (nk = 0; nk < NNAME; nk++) for (bk = 0; bk < NBUF; bk++) for (st = 0; st < NSTYLE; st++) {
 		struct grp *g = &G[qi][ci][nk][bk][st];
 		if (!g->tested) continue;
@@ -348,6 +371,27 @@ int main(int argc, char **argv)
 			for (j = 0; j < nlens; j++)
 				if ((pair * 5 + j) % nsh == shard && (only_len < 0 || lens[j] == only_len))
 					one_length(qi, ci, lens[j]);
+			if (only_len < 0) {
+				/* Order of answers: the client decodes a stream of answers in one process, so whatever a
+				 * large (many-record) answer leaves behind must not leak into a later, smaller one.  Same
+				 * oracle, descending and interleaved big/small order. */
+				uint64_t r = mix(seed, (uint64_t) pair, 77, (uint64_t) shard) | 1;
+				int k;
+				in_order_pass = 1;
+				for (j = nlens - 1; j >= 0; j -= 2)
+					if ((pair * 5 + j) % nsh == shard)
+						one_length(qi, ci, lens[j]);
+				for (k = 0; k < 24; k++) {
+					int a, b;
+					r = r * 6364136223846793005ULL + 1442695040888963407ULL;
+					a = (int) ((r >> 33) % (uint64_t) nlens);
+					r = r * 6364136223846793005ULL + 1442695040888963407ULL;
+					b = (int) ((r >> 33) % (uint64_t) (nlens < 120 ? nlens : 120));
+					one_length(qi, ci, lens[a]);
+					one_length(qi, ci, lens[b]);
+				}
+				order_passes = 1;
+			}
 			report(qi, ci);
 			fflush(stdout);
 			_exit(0);
